@@ -17,7 +17,18 @@ let () =
         let missing = K.missing_price_b dl v in
         (match Drv_c01.observed_ok obs with
          | None ->
-           if obs = "ERR" then "ok"   (* a rejection for another reason (check) is outside C03 *)
+           if obs = "ERR" then begin
+             (* the command may fail only for a reason: a needed price is missing (C03), or the
+                journal is not accepted (C04: wellformed, proved equivalent to check_cmd_fixed),
+                or the window cannot be built (the model's own error) *)
+             if missing then "ok"
+             else match K.check_cmd_fixed (decode_journal j) with
+               | K.COk _ ->
+                 if String.length model >= 3 && String.sub model 0 3 = "OK " then
+                   "FAIL:the command failed although the journal is accepted and every needed price exists on its day"
+                 else "ok"
+               | _ -> "ok"
+           end
            else "FAIL:" ^ (if String.length obs > 60 then String.sub obs 0 60 else obs)
          | Some csv ->
            if missing then "FAIL:a booking needs a price that does not exist on its day, but a report was printed"
